@@ -200,6 +200,108 @@ def pgn_number(variant):
 
 HOOKS.append(extract_hcu)
 
+def eval_size(expr):
+    e = expr
+    for ty, n in (("f32", 4), ("u8", 1), ("i8", 1), ("u16", 2), ("i16", 2), ("u32", 4), ("i32", 4), ("u64", 8), ("f64", 8)):
+        e = e.replace(f"std::mem::size_of::<{ty}>()", str(n))
+    if not re.fullmatch(r"[0-9+*() ]+", e):
+        raise ExtractError(f"cannot evaluate MESSAGE_SIZE expression {expr!r}")
+    return int(eval(e))
+
+
+def match_table(rel, anchor, what):
+    """[(lhs number, Variant)] of `lit => Ok(X::Variant)` / `lit => Some(..Variant)` arms in the block after anchor."""
+    b = body_of(rel, anchor, what)
+    out = []
+    for m in re.finditer(r"(0x[0-9a-fA-F]+|[0-9]+)\s*=>\s*(?:Ok|Some)\(\s*(?:[A-Za-z0-9_]+::)*([A-Z][A-Za-z0-9]*)", b):
+        out.append((num(m.group(1)), m.group(2)))
+    if not out:
+        raise ExtractError(f"{rel}: no match arms found for {what}")
+    return out
+
+
+def extract_wire():
+    base = "glonax-runtime/src/"
+    pm = base + "protocol/mod.rs"
+    m = one(pm, r"const\s+PROTO_HEADER\s*:\s*\[u8;\s*3\]\s*=\s*\[\s*b'(.)'\s*,\s*b'(.)'\s*,\s*b'(.)'\s*\]", "PROTO_HEADER")
+    add("protoHeader", "[%d, %d, %d]" % tuple(ord(m.group(i)) for i in (1, 2, 3)), "protocol/mod.rs PROTO_HEADER", ty="List Nat")
+    add("protoVersion", const(pm, "PROTO_VERSION"), "protocol/mod.rs PROTO_VERSION")
+    add("maxPayloadSize", const(pm, "MAX_PAYLOAD_SIZE"), "protocol/mod.rs MAX_PAYLOAD_SIZE")
+    m = one(pm, r"const\s+PROTO_BUFFER_SIZE\s*:\s*usize\s*=\s*PROTO_HEADER\.len\(\)\s*\+\s*std::mem::size_of::<u8>\(\)\s*\+\s*std::mem::size_of::<u8>\(\)\s*\+\s*std::mem::size_of::<u16>\(\)\s*\+\s*([0-9]+)\s*;", "PROTO_BUFFER_SIZE")
+    add("protoBufferSize", 3 + 1 + 1 + 2 + num(m.group(1)), "protocol/mod.rs PROTO_BUFFER_SIZE (evaluated)")
+    add("protoPadding", num(m.group(1)), "protocol/mod.rs PROTO_BUFFER_SIZE trailing padding bytes")
+    # FrameMessage discriminants (Session/Request/Error message types)
+    fm = dict(enum_discriminants(base + "protocol/frame.rs", "FrameMessage"))
+    types = [
+        ("Session", base + "protocol/frame.rs"), ("SessionError", base + "protocol/frame.rs"), ("Request", base + "protocol/frame.rs"),
+        ("Engine", base + "core/engine.rs"), ("Motion", base + "core/motion.rs"), ("Control", base + "core/control.rs"),
+        ("Target", base + "core/target.rs"), ("Rotator", base + "core/rotation.rs"), ("ModuleStatus", base + "core/status.rs"),
+        ("Instance", base + "core/instance.rs"), ("Gnss", base + "core/gnss.rs"), ("Actor", base + "world/mod.rs"),
+    ]
+    for ty, f in types:
+        b = body_of(f, r"impl\s+(?:crate::protocol::|super::)?Packetize\s+for\s+" + ty + r"\b", f"Packetize for {ty}")
+        m = re.search(r"const\s+MESSAGE_TYPE\s*:\s*u8\s*=\s*([^;]+);", b)
+        if not m:
+            raise ExtractError(f"{f}: MESSAGE_TYPE of {ty}")
+        e = m.group(1).strip()
+        mm = re.fullmatch(r"FrameMessage::(\w+)\s+as\s+u8", e)
+        if mm:
+            e = e.split("//")[0]
+            if mm.group(1) not in fm:
+                raise ExtractError(f"FrameMessage::{mm.group(1)} has no discriminant")
+            t = fm[mm.group(1)]
+        else:
+            t = num(e.split("//")[0])
+        add(f"msgType{ty}", t, f"{ty}::MESSAGE_TYPE")
+        m = re.search(r"const\s+MESSAGE_SIZE\s*:\s*Option<usize>\s*=\s*(None|Some\((.*?)\))\s*;", b, re.S)
+        if not m or m.group(1) == "None":
+            add(f"msgSize{ty}", "none", f"{ty}::MESSAGE_SIZE (trait default None)", ty="Option Nat")
+        else:
+            add(f"msgSize{ty}", f"some {eval_size(m.group(2).strip())}", f"{ty}::MESSAGE_SIZE = Some({m.group(2).strip()})", ty="Option Nat")
+    # Control type codes
+    cf = base + "core/control.rs"
+    for m in re.finditer(r"const\s+(CONTROL_TYPE_[A-Z_]+)\s*:\s*u8\s*=\s*(0x[0-9a-fA-F]+|[0-9]+)\s*;", src(cf)):
+        add(camel(m.group(1)), num(m.group(2)), "core/control.rs " + m.group(1))
+    # Constraint, RotationReference, ModuleState, GnssStatus, MachineType, SessionError
+    for v, n in enum_discriminants(base + "core/target.rs", "Constraint"):
+        add(f"constraint{v}", n, "core/target.rs enum Constraint")
+    for n, v in match_table(base + "core/rotation.rs", r"impl\s+TryFrom<u8>\s+for\s+RotationReference", "RotationReference::try_from"):
+        add(f"rotationReference{v}", n, "core/rotation.rs RotationReference::try_from")
+    for v, n in enum_discriminants(base + "core/status.rs", "ModuleState"):
+        add(f"moduleState{v}", n, "core/status.rs enum ModuleState")
+    b = body_of(base + "core/status.rs", r"impl\s+TryFrom<Vec<u8>>\s+for\s+ModuleStatus", "ModuleStatus::try_from")
+    for m in re.finditer(r"([0-9]+)\s*=>\s*Some\(ModuleError::(\w+)\)", b):
+        add(f"moduleError{m.group(2)}", num(m.group(1)), "core/status.rs ModuleStatus::try_from error code")
+    for v, n in enum_discriminants(base + "core/gnss.rs", "GnssStatus"):
+        add(f"gnssStatus{v}", n, "core/gnss.rs enum GnssStatus")
+    for v, n in enum_discriminants(base + "core/mod.rs", "MachineType"):
+        add(f"machineType{v}", n, "core/mod.rs enum MachineType")
+    for v, n in enum_discriminants(base + "protocol/frame.rs", "SessionError"):
+        add(f"sessionError{v}", n, "protocol/frame.rs enum SessionError")
+    b = body_of(base + "protocol/frame.rs", r"impl\s+Session\s*\{", "impl Session")
+    for m in re.finditer(r"pub\s+const\s+(MODE_[A-Z]+)\s*:\s*u8\s*=\s*(0b[01_]+|0x[0-9a-fA-F]+|[0-9]+)\s*;", b):
+        add("sessionMode" + m.group(1)[5:].capitalize(), num(m.group(2)), "Session::" + m.group(1))
+    m = re.search(r"name\.chars\(\)\.take\(\s*([0-9]+)\s*\)", b)
+    if not m:
+        raise ExtractError("frame.rs: Session::new name truncation")
+    add("sessionNameMaxChars", num(m.group(1)), "Session::new name.chars().take(N)")
+    b = body_of(base + "protocol/frame.rs", r"impl\s+TryFrom<Vec<u8>>\s+for\s+Session\b", "Session::try_from")
+    m = re.search(r"let\s+mask\s*=\s*(0b[01_]+|0x[0-9a-fA-F]+)\s*;", b)
+    if not m:
+        raise ExtractError("frame.rs: Session::try_from mask")
+    add("sessionInvalidFlagMask", num(m.group(1)), "Session::try_from mask")
+    # crate version
+    m = one("glonax-runtime/Cargo.toml", r'\[package\].*?\nversion\s*=\s*"([0-9]+)\.([0-9]+)\.([0-9]+)"', "package version")
+    add("versionMajor", int(m.group(1)), "glonax-runtime/Cargo.toml version major")
+    add("versionMinor", int(m.group(2)), "glonax-runtime/Cargo.toml version minor")
+    add("versionPatch", int(m.group(3)), "glonax-runtime/Cargo.toml version patch")
+    lf = base + "lib.rs"
+    add("queueSizeCommand", const(lf, "QUEUE_SIZE_COMMAND"), "lib.rs consts::QUEUE_SIZE_COMMAND")
+    add("queueSizeSignal", const(lf, "QUEUE_SIZE_SIGNAL"), "lib.rs consts::QUEUE_SIZE_SIGNAL")
+
+
+HOOKS.append(extract_wire)
+
 
 def main():
     try:
